@@ -148,7 +148,14 @@ pub fn gen_cfg(rng: &mut Rng, transport: Transport) -> ClientCfg {
 
 pub fn gen_script(rng: &mut Rng, reqid: u32, token: &str, allow_faults: bool, transport: Transport) -> Script {
     let ok = rng.chance(3, 4);
-    let status = if ok { 200 } else { *rng.pick(&ERROR_STATUSES) };
+    // half of the error answers use one of 18 common codes, half any code in 400..=599
+    let status = if ok {
+        200
+    } else if rng.chance(1, 2) {
+        *rng.pick(&ERROR_STATUSES)
+    } else {
+        rng.range(400, 599) as u16
+    };
     // the IPP body: a small attributable response, sometimes followed by extra groups from the wire-tree generator
     let extra = if rng.chance(1, 3) {
         let mut shape = ShapeCfg::swarm(rng);
@@ -1007,7 +1014,7 @@ impl Prop for C11 {
     }
 
     fn rule(&self) -> String {
-        "Tier A (3 of 4 runs): the real IppClient::send (ureq agent, header loop, streaming chunked body, IppParser on the response reader) over an in-memory transport installed through the cfg(ipp_verif) hook; every transport read/write is scripted: short writes, response segmentation, framing (content-length / chunked with seeded chunk sizes / close-delimited), status (200 or 18 4xx/5xx codes), one fault (cut, I/O error kind or read time-out at an offset classified as HTTP head / IPP header / attributes / trailing data; or reset while the request is being written); request payload from a fragmented source with EINTR / not-ready results — a blocking Read or an AsyncRead, in a quarter of the runs the kind that does NOT match the client (both payload bridges under both clients); custom headers are private x- names or registered request headers (content-language, content-disposition, accept-language, cookie, ...) other than the ones the clients set themselves; 1 of 100 single-sender runs additionally cuts the response at EVERY offset before the end of the attributes under each framing ('cut_sweep_sends'); 1 of 6 runs has 2-6 concurrent senders through one shared client under the seeded baton scheduler (one thread runs at a time, every transport call is a yield point); in tier A each of them has its own script, so some may meet an error status or a failing connection while the others must still get their own complete response. Tier B (every 4th run): IppClient and AsyncIppClient against the same scripted printer over real loopback TCP (concurrent senders are gated: the printer answers only once all their requests have arrived and then interleaves the response segments of the connections in a seeded order, so requests and responses really overlap), plus, in 1 of 60 single-sender runs, a sweep of clean closes at ~100 sampled offsets before the end of the attributes under three framings ('tierB.cut_sweep_sends'), and the two request_timeout clauses: a stalled printer, and a printer that drips its answer with gaps shorter than the timeout but a total of ~4x the timeout. Oracles: exactly one POST per send to path+query with Host, content-type, every custom header, Basic credentials; de-chunked body == to_bytes() of the sent instance ++ payload; 2xx + complete => Ok equal to the unfragmented parse of the scripted IPP bytes and identical trailing data; 4xx/5xx, failure before the end of the attributes, reset during the request, or stall / slow drip beyond the timeout => Err; failure inside trailing data => attributes equal and trailing data a prefix; each concurrent sender gets the response carrying its own token. distinct_nontrivial = distinct hashes of the transport call sequence (+ baton order) [tier A] or of (configuration, scripts, outcome classes) [tier B] among runs with a payload, a fault, an error status or several senders."
+        "Tier A (3 of 4 runs): the real IppClient::send (ureq agent, header loop, streaming chunked body, IppParser on the response reader) over an in-memory transport installed through the cfg(ipp_verif) hook; every transport read/write is scripted: short writes, response segmentation, framing (content-length / chunked with seeded chunk sizes / close-delimited), status (200 or any 4xx/5xx code), one fault (cut, I/O error kind or read time-out at an offset classified as HTTP head / IPP header / attributes / trailing data; or reset while the request is being written); request payload from a fragmented source with EINTR / not-ready results — a blocking Read or an AsyncRead, in a quarter of the runs the kind that does NOT match the client (both payload bridges under both clients); custom headers are private x- names or registered request headers (content-language, content-disposition, accept-language, cookie, ...) other than the ones the clients set themselves; 1 of 100 single-sender runs additionally cuts the response at EVERY offset before the end of the attributes under each framing ('cut_sweep_sends'); 1 of 6 runs has 2-6 concurrent senders through one shared client under the seeded baton scheduler (one thread runs at a time, every transport call is a yield point); in tier A each of them has its own script, so some may meet an error status or a failing connection while the others must still get their own complete response. Tier B (every 4th run): IppClient and AsyncIppClient against the same scripted printer over real loopback TCP (concurrent senders are gated: the printer answers only once all their requests have arrived and then interleaves the response segments of the connections in a seeded order, so requests and responses really overlap), plus, in 1 of 60 single-sender runs, a sweep of clean closes at ~100 sampled offsets before the end of the attributes under three framings ('tierB.cut_sweep_sends'), and the two request_timeout clauses: a stalled printer, and a printer that drips its answer with gaps shorter than the timeout but a total of ~4x the timeout. Oracles: exactly one POST per send to path+query with Host, content-type, every custom header, Basic credentials; de-chunked body == to_bytes() of the sent instance ++ payload; 2xx + complete => Ok equal to the unfragmented parse of the scripted IPP bytes and identical trailing data; 4xx/5xx, failure before the end of the attributes, reset during the request, or stall / slow drip beyond the timeout => Err; failure inside trailing data => attributes equal and trailing data a prefix; each concurrent sender gets the response carrying its own token. distinct_nontrivial = distinct hashes of the transport call sequence (+ baton order) [tier A] or of (configuration, scripts, outcome classes) [tier B] among runs with a payload, a fault, an error status or several senders."
             .into()
     }
     fn assumptions(&self) -> Vec<String> {
